@@ -205,6 +205,11 @@ def classify_back_edge(cx, b, tail, head):
                     return ('L-CONST', 'driven by <%s>::next (%s)' % (st, why))
                 return (None, 'iterator %s: %s' % (st, why))
             return (None, 'loop driven by Iterator::next of a non-finite / adapted iterator type %s' % st)
+    # ---- L-CONST (counted form): `while c < bound { ..; c += k }` — the loop stays only while a counter is below a
+    # loop-invariant bound, and every trip around increments that counter by a positive constant
+    r = _counted_loop(b, tail, head, blocks)
+    if r:
+        return ('L-CONST', r)
     # ---- L-CAS: the tail is reachable only through the failure outcome of a CAS in the loop
     cas_sites = [s for s in cx.summ.sites_by_body.get(b.key, ()) if s.op.startswith('compare_exchange') and s.bb in blocks]
     for s in cas_sites:
@@ -226,6 +231,68 @@ def classify_back_edge(cx, b, tail, head):
     if r:
         return ('L-INTERFERENCE', r)
     return (None, 'back edge bb%d->bb%d matches no admitted loop class' % (tail, head))
+
+
+def _counted_loop(b, tail, head, blocks):
+    def root(op):
+        n = 0
+        while op is not None and op.get('k') in ('copy', 'move') and not op['place']['proj'] and n < 6:
+            l = op['place']['local']
+            ds = [x for x in b.assigns().get(l, ()) if not x[4]]
+            if len(ds) == 1 and ds[0][2] == 'stmt' and ds[0][3]['k'] == 'use' and ds[0][3]['op'].get('k') in ('copy', 'move') and not ds[0][3]['op']['place']['proj']:
+                op = ds[0][3]['op']
+                n += 1
+                continue
+            return l
+        return None
+    def assigned_in_loop(l):
+        return [x for x in b.assigns().get(l, ()) if x[0] in blocks]
+    for sbb in sorted(blocks):
+        t = b.term(sbb)
+        if t['k'] != 'switch' or not b.dominates(sbb, tail):
+            continue
+        outs = [x for x in b.term_succs(sbb, False) if x not in blocks]
+        ins = [x for x in b.term_succs(sbb, False) if x in blocks]
+        if len(outs) != 1 or len(ins) != 1:
+            continue
+        d = U.def_rvalue(b, t['discr'])
+        if not (d and d[0] == 'rv' and d[3]['k'] == 'binop' and d[3]['op'] in ('Lt', 'Le', 'Ne')):
+            continue
+        v = U.switch_edge_value(b, sbb, ins[0])
+        vals = [x for x, _ in t['targets']]
+        stays_when_true = (v == [1]) or (v == 'otherwise' and vals == [0])
+        if not stays_when_true:
+            continue
+        c = root(d[3]['l'])
+        bound = d[3]['r']
+        if c is None or not str(b.local_ty(c)).startswith(('usize', 'u8', 'u16', 'u32', 'u64')):
+            continue
+        if bound['k'] != 'const':
+            bl = root(bound)
+            if bl is None or assigned_in_loop(bl):
+                continue
+        # every assignment of c inside the loop is c := c + k (k > 0), possibly through the checked-add temporary
+        incs = []
+        ok = True
+        for (abb, ai, kind, rv, proj) in assigned_in_loop(c):
+            if kind != 'stmt':
+                ok = False
+                break
+            src = rv
+            if rv['k'] == 'use' and rv['op'].get('k') in ('copy', 'move') and rv['op']['place']['proj'] and rv['op']['place']['proj'][0]['k'] == 'field':
+                tl = rv['op']['place']['local']
+                ds = [x for x in b.assigns().get(tl, ()) if not x[4]]
+                if len(ds) == 1 and ds[0][2] == 'stmt':
+                    src = ds[0][3]
+            if src['k'] in ('binop', 'checked_binop') and src['op'] in ('Add', 'AddWithOverflow', 'AddUnchecked') and root(src['l']) == c and \
+                    src['r']['k'] == 'const' and (src['r']['c'].get('int') or 0) > 0:
+                incs.append(abb)
+            else:
+                ok = False
+                break
+        if ok and incs and any(b.dominates(x, tail) for x in incs):
+            return 'counted: stays while %s < bound, the counter grows by a positive constant on every trip (at %s), the bound is loop-invariant' % (b.local_name(c) or '_%d' % c, b.loc(incs[0]))
+    return None
 
 
 def _finite_iter_ty(st):
